@@ -18,7 +18,10 @@ import build as buildmod
 import pipeline
 
 SPEC = os.path.join(VERIF, "spec")
-OUT = os.path.join(VERIF, "out")
+# VERIF_SCRATCH redirects out/, evidence/ and replay/ (used when trying seeded changes in a scratch worktree
+# with VERIF_REPO=<worktree>, so that the registered evidence is never overwritten by such runs)
+ROOT = os.environ.get("VERIF_SCRATCH", VERIF)
+OUT = os.path.join(ROOT, "out")
 NCPU = 16
 
 
@@ -129,6 +132,14 @@ class Ctx:
                         out.append(dict(inject[cur]))
                         done.add(cur)
                 evs = out
+            # the content of every basis file the library wrote becomes an event of its own (C14: file = Write(B))
+            if any(e["call"] == "write_basis" for e in evs):
+                out = []
+                for e in evs:
+                    out.append(e)
+                    if e["call"] == "write_basis" and e.get("rval") == 0:
+                        out.append(dict(call="basis_file", h=e["h"], b=e["b"], file=e["file"], lines=pipeline.read_basis_file(os.path.join(self.dir, e["file"]))))
+                evs = out
             pipeline.renumber(evs)
             summ, verdicts = pipeline.validate(evs, self.dir, ctag, spec=spec, heap="3g")
             return part, evs, info, summ, verdicts
@@ -208,7 +219,7 @@ def finish(ctx, level, rule, extra_cov=None, assumptions=None):
             kn.setdefault(k["id"], (k, []))[1].append(v)
         else:
             new.append(v)
-    rdir = os.path.join(VERIF, "replay", prop)
+    rdir = os.path.join(ROOT, "replay", prop)
     lines = []
     for kid, (k, vs) in kn.items():
         lines.append("KNOWN-FINDING: property=%s %s [%s; %d occurrence(s) this run]" % (prop, k["text"], kid, len(vs)))
@@ -251,8 +262,8 @@ def finish(ctx, level, rule, extra_cov=None, assumptions=None):
         cov.update(extra_cov)
     ev = dict(property_id=prop, tier=ctx.tier, seed=ctx.seed, level=level, coverage=cov,
               assumptions=assumptions or [], wall_s=round(time.time() - ctx.t0, 1), violations=len(new))
-    os.makedirs(os.path.join(VERIF, "evidence"), exist_ok=True)
-    with open(os.path.join(VERIF, "evidence", prop + ".json"), "w") as f:
+    os.makedirs(os.path.join(ROOT, "evidence"), exist_ok=True)
+    with open(os.path.join(ROOT, "evidence", prop + ".json"), "w") as f:
         json.dump(ev, f, indent=1, default=str)
     for ln in lines:
         print(ln)
